@@ -1,0 +1,10 @@
+//go:build verif
+
+package lexer
+
+// VerifNewEmbellished returns a lexer that starts in the embellished-text mode,
+// exactly as ColorizeEmbellishedText constructs it (the mode type is unexported).
+// Used by the C04 verification harness to observe the token spans of that mode.
+func VerifNewEmbellished(source string) *Lexer {
+	return NewWithMode("<main>", source, embellishmentMode)
+}
